@@ -158,7 +158,15 @@ pub fn run(tier: &str, seed: u64, dir: &str) {
             sink.case(&op, &eval(&op), "uplink-echo", true);
         }
     }
+    // builder Y — downlinks addressed to another DevAddr under the session's own keys at the next fresh counter in
+    // RX1 / RX2 / RXC, followed by the authentic downlink at that counter (which must still be accepted)
+    for region in REGIONS {
+        for k in 0..(if thorough { 144 } else { 24 }) {
+            let op = other_devaddr_history("C05", &mut rng, region, k);
+            sink.case(&op, &eval(&op), "other-devaddr", true);
+        }
+    }
     // device level: both front-ends with the scripted radio (see adevgen::add_dev_classes)
     crate::adevgen::add_dev_classes("C05", &mut rng, &mut sink, thorough, eval);
-    sink.finish(dir, "next_fcnt_down: one digest per `last` value over all 65536 wire values (last = none, every value within +-1000 of 0, 0x8000, 0xFFFF, 0x10000, 0x7FFF0000, 0xFFFEFFFF, 0xFFFF0000, 2^32-1 plus a stride of 97 out to +-70000 in thorough; +-24 in quick; the gap boundaries +-16383..16385, +-65535/65536 in both; plus random); MAC histories with sessions whose downlink counter sits at 16-/32-bit boundaries, mixing fresh, replayed, reordered, far-future, bit-flipped, wrong-key and oversized frames in RX1/RX2/RXC. Non-trivial = every case.", false, serde_json::json!({}));
+    sink.finish(dir, "next_fcnt_down: one digest per `last` value over all 65536 wire values (last = none, every value within +-1000 of 0, 0x8000, 0xFFFF, 0x10000, 0x7FFF0000, 0xFFFEFFFF, 0xFFFF0000, 2^32-1 plus a stride of 97 out to +-70000 in thorough; +-24 in quick; the gap boundaries +-16383..16385, +-65535/65536 in both; plus random); MAC histories with sessions whose downlink counter sits at 16-/32-bit boundaries, mixing fresh, replayed, reordered, far-future, bit-flipped, wrong-key, uplink-typed, addressed-to-another-DevAddr (under the session's own keys at the next fresh counter, followed by the authentic downlink at that counter) and oversized frames in RX1/RX2/RXC. Non-trivial = every case.", false, serde_json::json!({}));
 }
